@@ -8,15 +8,15 @@ NA = {}
 # what was added after the seeded-mutation campaign (DESIGN.md §10.2), appended to the level text
 EXTRA = {
  "C01": " Added later: a replica that stops and reopens after every block; black-list-only service updates aimed at pairs that carry traffic; Ethereum-format transactions (transfers, deployments, calls, reverts, rejections before/after the gas purchase).",
- "C02": " Added later: every executed block is also fed to the real InterchainRouter (live subscription and replay query): each chain's wrapper must carry exactly the block's delivery entries, roots and height; a service addressing itself and two services of one chain are among the pairs.",
- "C03": " Added later: inter-hub IBTPs whose proof bytes do not hash to the committed value although the signatures are valid.",
+ "C02": " Added later: every executed block is also fed to the real InterchainRouter (live subscription and replay query): each chain's wrapper must carry exactly the block's delivery entries, roots and height; a service addressing itself and two services of one chain are among the pairs. An unordered (batch) source service is among the pairs; a case with an unordered destination runs as an observation only (outside the statement).",
+ "C03": " Added later: inter-hub IBTPs whose proof bytes do not hash to the committed value although the signatures are valid. Master-rule updates voted down (candidate: a registered rule or the built-in one), followed by re-activation of the chain and proofs only the rejected candidate would accept.",
  "C04": " Added later: every sixth case runs transactions between two BitXHubs seen from the source hub (requests to a remote hub, receipts signed by its validators, begin-failure / rollback notices) against a reference model.",
- "C05": " Added later: the router's delivery sets (live and replay path) must carry the block's multi-tx notifications for every chain.",
- "C06": " Added later: every third case runs one-to-many groups: a group's begun children are listed as timed out for the source chain exactly once, in block firstH+T, only if the group neither finished nor failed before; the router's wrappers must carry the block's timeout notifications.",
- "C07": " Added later: Ethereum-format transactions in the mixed blocks; a fee oracle (a failed transaction costs its sender exactly gas used x price, or its whole balance).",
+ "C05": " Added later: the router's delivery sets (live and replay path) must carry the block's multi-tx notifications for every chain. Two groups begun in one block with one timeout (shared per-height list); a report for one group in the expiry block of another.",
+ "C06": " Added later: every third case runs one-to-many groups: a group's begun children are listed as timed out for the source chain exactly once, in block firstH+T, only if the group neither finished nor failed before; the router's wrappers must carry the block's timeout notifications. Groups sharing a timeout height; the router's timeout part decides C06 in the group cases too.",
+ "C07": " Added later: Ethereum-format transactions in the mixed blocks; a fee oracle (a failed transaction costs its sender exactly gas used x price, or its whole balance). An XVM deployment whose sender cannot pay the fee, to an address that already exists as an account, optionally called in the same block.",
  "C08": " Added later: envelope fields absent on the wire (From, To, payload, signature), odd Ethereum-format transactions.",
  "C09": " Added later: every fourth case drives the ledger's own interface (PersistBlockData, Rollback) with synthetic blocks: delivery entries marked invalid, several chains per block, empty blocks, rollbacks in a row.",
- "C10": " Added later: variant balance-by-delta (the same final balance reached by credits and debits). The known finding 'reverted write on a new account' was repaired later (e5a2e9d8); two remain.",
+ "C10": " Added later: variant balance-by-delta (the same final balance reached by credits and debits). The known finding 'reverted write on a new account' was repaired later (e5a2e9d8); two remain. Every fifth case runs real blocks (requests, receipts, timeouts, restarts) through the executor with a root monitor: nothing may be left dirty in the ledger after the commit (a write after the root), the header root is the hash of the committed journal, and the accounts the journal lists are exactly those whose keys changed in the state store.",
  "C11": " Added later: height 0 (the commit of the genesis block itself) and a crash block that creates accounts with code and storage (EVM constructor storing a word, WASM deployment).",
  "C12": " Added later: the running ledger itself is read right before every rollback and at the end of each history (its caches must hold the restored-and-continued state).",
  "C13": " Added later: after every commit the running ledger (cache) and a cache-less ledger over the same store must answer identically, found-flag included; slot locality in the generator.",
